@@ -275,6 +275,9 @@ func devVerify(args []string) {
 		}
 	}
 	os.RemoveAll(*out)
+	for _, p := range pk {
+		e.checkPrivate(p)
+	}
 	e.proveIndLemmas()
 	e.discharge(*out, *timeout, false, runtime.NumCPU())
 	e.printSummary(*verbose)
@@ -285,7 +288,7 @@ func (e *Engine) printSummary(verbose bool) {
 	for _, name := range e.oblOrder {
 		ob := e.obls[name]
 		if ob.Class == "canary" {
-			if ob.status() == "unsat" {
+			if e.vacuous(ob) {
 				fmt.Printf("  VACUOUS %s\n", name)
 			}
 			continue
@@ -346,6 +349,24 @@ func dedupe(xs []string) []string {
 		}
 	}
 	return out
+}
+
+// vacuous: a canary that is refuted. Paired canaries (key / key:pre) only count when the path
+// was still feasible before the contract was applied.
+func (e *Engine) vacuous(ob *Obligation) bool {
+	if strings.HasSuffix(ob.Name, ":pre") {
+		return false
+	}
+	pre := e.obls[ob.Name+":pre"]
+	if pre == nil {
+		return ob.status() == "unsat"
+	}
+	for i, vc := range ob.VCs {
+		if vc.Result == "unsat" && i < len(pre.VCs) && pre.VCs[i].Result != "unsat" {
+			return true
+		}
+	}
+	return false
 }
 
 func (ob *Obligation) status() string {
